@@ -145,6 +145,21 @@ def check_sandwich(run):
     by_tid = {}
     for ev in run.events:
         by_tid.setdefault(ev.tid, []).append(ev)
+    # C09: while the profiler's per-thread state is created / cleared / read, no allocator request is issued on that thread
+    measuring = 0
+    for tid, evs in by_tid.items():
+        on = False
+        for ev in evs:
+            if ev.kind == E.NOTE and ev.a == 12:
+                on = True
+                measuring += 1
+            elif ev.kind == E.NOTE and ev.a == 13:
+                on = False
+            elif on and ev.kind == E.ALLOC_OP:
+                out.append(V("C09", "profiler_issued_own_request", "thread %d: an allocator request (%s, size %d) was issued while the profiler set up / read the thread's tally: the wrapper allocates through the allocator it wraps" % (
+                    tid, OPN.get(ev.a & 0xFF, ev.a & 0xFF), ev.b), [ev]))
+                break
+    stats["measuring_sections"] = measuring
     for rec in tt:
         seed, tid = int(rec[0]), int(rec[1])
         if rec[2] == "none":
